@@ -108,6 +108,23 @@ def judge_net(case, ctx, prefix):
             if pr.real < -refd['tol'] * refd['s_phi'] * refd['s_i'] or abs(pr.imag) > refd['tol'] * refd['s_phi'] * refd['s_i']:
                 ctx.violation(f'{prefix}/net/resistor-sign', f'resistor {b["id"]!r} reports power {pr!r}', {})
     mag = balance(ctx, prefix, 'net', sign, P, refd['tol'], refd['s_phi'] * refd['s_i'])
+    # the power balance does not depend on how the equations are numbered: the same network solved with a caller's node / source numbering
+    from CircuitCalculator.Network.NodalAnalysis.bias_point_analysis import NodalAnalysisBiasPointSolution
+    from .. import mappers
+    sol2 = call(NodalAnalysisBiasPointSolution, net, **mappers.custom_numbering(len(desc['branches']) * 31 + len(str(desc['ref']))))
+    if raised(sol2):
+        ctx.violation(f'{prefix}/net-custom-numbering/solve-raised/{sol2.key}', sol2.text, {})
+    else:
+        P2 = {}
+        for b in desc['branches']:
+            p = call(sol2.get_power, b['id'])
+            if raised(p):
+                ctx.violation(f'{prefix}/net-custom-numbering/query-raised/{p.key}', p.text, {})
+                break
+            P2[b['id']] = complex(p)
+        else:
+            balance(ctx, prefix, 'net-custom-numbering', sign, P2, refd['tol'], refd['s_phi'] * refd['s_i'])
+            ctx.count('custom_numbering_balances')
     ctx.evaluated(netdesc.signature(desc) + 'net', any(abs(x) > 0 for x in P.values()))
     ctx.sample(case)
 
